@@ -170,6 +170,13 @@ def calls(C):
                 name = f"unf(U|{fn}|uniq={u},extr={e})"
                 if name not in out:
                     add(name, f, group=g)
+    # every configured alias in two differently spelled searches (what an alias stands for is configuration, not a resource that
+    # the first search may use up)
+    for a in sorted(ref.alias):
+        s1 = "/".join(LEAF.split("/")[:-1] + [a])
+        s2 = "/".join(LEAF.split("/")[:2]) + "/**/" + a
+        add(f"unf(alias {a} #1)", lambda s1=s1: unfold_search(s1))
+        add(f"unf(alias {a} #2)", lambda s2=s2: unfold_search(s2))
     add("unf(S)", lambda: unfold_search(SEARCH), group="unfS-default")
     add("unf(S,uniq=False)", lambda: unfold_search(SEARCH, do_uniquify=False), group="unfS-default")
     add("unf(S,uniq=True)", lambda: unfold_search(SEARCH, do_uniquify=True), group="unfS-uniq")
